@@ -77,7 +77,7 @@ def run(ctx):
             "node (optional) as the JavaScript engine evaluating the emitted module and the random template literals",
         ],
         assumptions=[
-            "token theorem: names/numbers are runs of word characters, strings single-line and plain, no #import lines, no member-less union extension (LexGuard.v); string theorems are guarded by `plain` (single-line: no double quote / backslash; multi-line: no three quotes in a row, not ending in a quote or backslash) and read block strings the way nitrogql's parser does (raw); the template theorem is guarded by no carriage return and no `$`|`{` split across two writes",
+            "token theorem: names/numbers are runs of word characters, strings single-line and plain (spec reading: also multi-line values that are block_lit, read as their BlockStringValue), no #import lines, no member-less union extension (LexGuard.v); string theorems are guarded by `plain` (single-line: no double quote / backslash; multi-line: no three quotes in a row, not ending in a quote or backslash) and read block strings the way nitrogql's parser does (raw); the template theorem is guarded by no carriage return and no `$`|`{` split across two writes",
             "server-schema theorem: @nitrogql_ts_type only on scalars and @model only on object types and their fields (what the schema check and the model plugin's check accept)",
         ],
     )
